@@ -18,7 +18,7 @@ const (
 	nsStar                     // = "*"
 )
 
-func (n nameSetting) value() string { return [...]string{"", nameO, "*"}[n] }
+func (n nameSetting) value() string  { return [...]string{"", nameO, "*"}[n] }
 func (n nameSetting) String() string { return [...]string{"unset", "other", "star"}[n] }
 
 type echMode int
@@ -85,6 +85,7 @@ func (e *env) clientConfig(cs cfgSpec, cache tls.ClientSessionCache) *tls.Config
 		InsecureSkipTimeVerify:     cs.skipTime,
 		InsecureServerNameToVerify: cs.inv.value(),
 		ClientSessionCache:         cache,
+		OmitEmptyPsk:               true, // PSK parrots without a cached session drop the empty pre_shared_key extension
 	}
 	switch cs.ech {
 	case echAccept:
